@@ -11,7 +11,7 @@ import (
 func init() {
 	Register(&Property{
 		ID:    "C34",
-		Floor: 22,
+		Floor: 20,
 		Clauses: "Content-Length clause only, as dominating tests in internal/http3/body.go. bodyReader.Read: the `remain >= 0 && lim > remain` test sits under the DATA case and on every path from that case to stream.Read, and nothing is read after it holds; " +
 			"a clean EOF from readFrameHeader with remain > 0 never reaches the generic error return (which would surface io.EOF); a HEADERS (trailer) frame with remain > 0 never reaches the trailer decoder or discardFrame; " +
 			"remain is decremented under `remain > 0` by the count stream.Read returned, on every path from that read to a return; remain is written only by Read, Close and the two constructors. " +
@@ -40,7 +40,7 @@ func c34(c *Ctx) {
 	long := c.Edge("$r.st.lim > $r.remain")
 	c.Guard(rd, long, isData, "$r.remain >= 0")
 	c.NeverAfter(rd, long, Union(stRead, Calls(ST+"readFrameHeader")), true)
-	c.Between(rd, c.Edge(isData), stRead, Union(c.Edge("$r.st.lim > $r.remain"), c.Edge("$r.st.lim <= $r.remain"), c.Edge("$r.remain < 0")), true)
+	c.PassBetween(rd, c.Edge(isData), stRead, Union(c.Edge("$r.st.lim > $r.remain"), c.Edge("$r.st.lim <= $r.remain"), c.Edge("$r.remain < 0")), true)
 	c.Count(rd, long, 1, 1)
 	// EOF while bytes are still owed
 	short := c.EdgeWhere("$r.remain > 0", "readFrameHeader($r.st)#1 == io.EOF")
